@@ -586,6 +586,75 @@ func (ch c14) Run(c *core.Ctx) {
 		// corruptions
 		ch.corrupt(c, env, t, stream, rowEnds, rng, cs)
 	}
+	// a CopyData message above the message limit in the middle of a binary stream: the rows it carries were
+	// never accepted - the handler gets the rows before it and an error, never rows out of the refused message
+	// and never a clean end
+	for i := 0; i < 4; i++ {
+		if !c.Begin(600000+i) || c.NViol() >= 10 {
+			continue
+		}
+		rng := core.NewRng(c.Seed, "C14over", c.Batch, i)
+		t := c14table{OIDs: []uint32{pg.OIDInt4, pg.OIDText}, Trailer: i%2 == 0}
+		for r := 0; r < 2+rng.Intn(3); r++ {
+			t.Rows = append(t.Rows, []any{int32(r + 1), fmt.Sprintf("accepted row %d", r)})
+		}
+		head, ends := t.encode()
+		if t.Trailer {
+			head = head[:len(head)-2]
+		}
+		cutAt := len(head)
+		if i >= 2 {
+			cutAt = ends[len(ends)-1] - 3 // the refused message arrives while a row is still open
+		}
+		// the refused message: well-formed rows of the same table, more than the limit of them
+		crafted := c14table{OIDs: t.OIDs, NoHeader: true}
+		for r := 0; r < 3000; r++ {
+			crafted.Rows = append(crafted.Rows, []any{int32(666), "row out of a refused message"})
+		}
+		body, _ := crafted.encode()
+		body = append(append([]byte{}, head[cutAt:]...), body...)
+		cols := wire.Columns{{Name: "c0", Oid: oid.Oid(pg.OIDInt4), Width: -1}, {Name: "c1", Oid: oid.Oid(pg.OIDText), Width: -1}}
+		plan := &hs.CopyPlan{Format: wire.BinaryFormat, MaxReads: -1, OnErr: "propagate", Binary: true}
+		sess := &hs.Sess{Progs: map[string]*hs.Prog{"copy": {Stmts: []*hs.Stmt{{ID: "copy", Cols: cols, Ops: []hs.Op{{K: "copy", Copy: plan}}}}}}}
+		cl := hs.NewClient(env.Dial(sess))
+		if err := cl.StartupOK("u"); err != nil {
+			continue
+		}
+		in := append(pg.Query("copy"), pg.CopyData(head[:cutAt])...)
+		in = append(in, pg.CopyData(body)...)
+		in = append(append(in, pg.CopyData([]byte{0xff, 0xff})...), pg.CopyDone()...)
+		out, _ := cl.Step(append(in, pg.Sync()...))
+		cs := map[string]any{"oversized_copydata_bytes": len(body), "rows_before_it": len(t.Rows), "inside_a_row": i >= 2}
+		if hangCheck(c, cl, cs) {
+			continue
+		}
+		nrows, end, fabricated := 0, "none", ""
+		for _, e := range cl.C.Events() {
+			if e.Kind == "cb" && e.Name == "copyread" {
+				switch r := e.Data.(hs.CopyRec); {
+				case r.ErrNil:
+					if nrows >= len(t.Rows) || c14rowEq(t.OIDs, r.Row, t.Rows[nrows]) != "" {
+						fabricated = fmt.Sprint(r.Row)
+					}
+					nrows++
+				case r.EOF:
+					end = "eof"
+				default:
+					end = "error"
+				}
+			}
+		}
+		c.Count("oversized_copydata_inside_a_binary_stream", 1)
+		c.Eval(fmt.Sprintf("oversized CopyData in stream %d", i), true)
+		what := fmt.Sprintf("%d rows, then a CopyData message of %d bytes (limit %d) full of well-formed rows, then CopyDone", len(t.Rows), len(body), 1<<16)
+		switch {
+		case fabricated != "":
+			c.Violate("fabricated-row", "a row out of a CopyData message that was refused for its size reached the handler", fmt.Sprintf("%s: row %s (reply %s)", what, fabricated, replyKinds(out)), cs)
+		case end == "eof":
+			c.Violate("corruption-accepted", "a binary COPY stream with a refused message in it ends cleanly for the handler", fmt.Sprintf("%s: %d rows and io.EOF (reply %s)", what, nrows, replyKinds(out)), cs)
+		}
+		cl.Finish()
+	}
 	// CopyData messages at and just below the message limit L while part of a row is still
 	// buffered from the message before: the split must not matter here either
 	const L = 1 << 16 // hs.Start's MessageBufferSize
